@@ -167,8 +167,10 @@ func scenarioC06(r *Run) {
 			}
 			continue // the connection ended first: nothing to judge
 		}
-		if !ref.obj.HasErr || ref.obj.Code != int(jrpc2.Cancelled) {
-			r.Fail("cancelled-waiter-wrong-reply", "call %s (id %s) was cancelled while waiting for a slot; want a request-cancelled (-32097) reply, got %+v (found=%v)", m.Tag, m.ID, ref.obj, ok)
+		if !ref.obj.HasErr || ref.obj.Code == -32601 || ref.obj.Code == -32600 || ref.obj.Code == -32700 {
+			// "a cancellation error": an error object, and not one that says
+			// something else (which code says "cancelled" the property leaves open)
+			r.Fail("cancelled-waiter-wrong-reply", "call %s (id %s) was cancelled while waiting for a slot; want a cancellation error as reply, got %+v (found=%v)", m.Tag, m.ID, ref.obj, ok)
 			return
 		}
 	}
